@@ -1057,6 +1057,8 @@ impl Assembler {
         requires old(self).wf(), ordered == (old(self).state is Ordered)
         ensures final(self).wf(), final(self).state == old(self).state, final(self).end == old(self).end,
             forall|s: Seq<u8>| old(self).consistent(s) ==> final(self).consistent(s),
+            old(self).bufs().len() == 0 ==> r.is_none() && final(self).bufs().len() == 0,
+            final(self).bytes_read <= final(self).end,
             match r {
                 Some(c) => {
                     &&& final(self).bytes_read == old(self).bytes_read + c.bytes@.len()
@@ -1082,6 +1084,7 @@ impl Assembler {
                 forall|s: Seq<u8>| old(self).consistent(s) ==> self.consistent(s),
                 old(self).holds_next() ==> self.holds_next(),
                 !ordered ==> self.bufs() == old(self).bufs(),
+                self.bufs().len() <= old(self).bufs().len(),
             decreases self.bufs().len()
 //@ loop-start 0
             broadcast use axiom_peek_mut_resolved;
